@@ -31,7 +31,11 @@ CONSTANTS Tier,                    \* "quick" | "thorough" | "sim" | "neg" | "ne
                                     \* positional parameters instead of the field names
           Buggy_ArgsBySetOrder,     \* unlisted arguments of a compiled expression that uses a context
                                     \* name come in the process's own (hash seed) order
-          Buggy_DigestSkipsShared   \* the persistent key walks an object met before only once
+          Buggy_DigestSkipsShared,  \* the persistent key walks an object met before only once
+          \* (round 5)
+          Buggy_VarsByName          \* the pickle of a compiled expression carries the NAMES of its listed
+                                    \* variables; the consumer re-makes them as plain variables, which are not
+                                    \* the leaves of an expression written over a leaf subclass
 VARIABLES hist, inst, phase, plan
 
 vars == << heap, hfun, msgs, digs, obs, hist, inst, phase, plan >>
@@ -62,11 +66,13 @@ Variants == { << 3, 4 >>, << 4, 5 >>, << 3, 6 >>, << 22, 23 >>, << 22, 24 >>, <<
               << 79, 80 >>, << 80, 79 >>, << 78, 81 >>, << 78, 90 >>,
               << 98, 97 >>, << 97, 98 >>, << 98, 99 >>, << 99, 98 >>, << 101, 100 >>, << 100, 101 >>,
               << 101, 102 >>, << 104, 103 >>, << 103, 104 >>, << 106, 105 >>, << 105, 106 >>,
-              << 108, 107 >>, << 107, 108 >>, << 109, 110 >> }
+              << 108, 107 >>, << 107, 108 >>, << 109, 110 >>,
+              \* (round 5) other leaf class / listed by name, as objects / listed, unlisted
+              << 117, 118 >>, << 120, 121 >>, << 123, 124 >>, << 124, 123 >>, << 125, 127 >>, << 129, 128 >> }
 \* entries whose histories are enumerated deeper: a stock node with strings, a
 \* user dataclass node, a legacy node, a legacy subclass of a dataclass node,
 \* a node that does not cache its hash, a compiled expression
-Deep == {3, 22, 41, 48, 50, 46, 56, 68, 70, 74, 78, 84, 91, 98}
+Deep == {3, 22, 41, 48, 50, 46, 56, 68, 70, 74, 78, 84, 91, 98, 117, 125, 132}
 
 \* quick tier: histories one step deeper for one or two stock nodes per mechanism
 \* (all stock nodes share the generated pickling code) and for everything that
@@ -74,6 +80,7 @@ Deep == {3, 22, 41, 48, 50, 46, 56, 68, 70, 74, 78, 84, 91, 98}
 \* (of the round-2 entries: one per class / per way of building)
 Rep == {1, 3, 7, 16, 19, 22, 25, 26, 28, 32, 34, 38, 39, 40} \cup 41..77
        \cup {78, 79, 84, 91, 94, 98, 101, 104}
+       \cup {117, 119, 123, 125, 126, 131, 132, 134}
 
 Mk(pr, proto, ct, np, d, wrap) ==
     [ta |-> pr[1], tb |-> pr[2], proto |-> proto, cfg |-> CfgTuples[ct], np |-> np, d |-> d,
@@ -110,7 +117,8 @@ Insts ==
                        proto \in Protos, ct \in 1..NCT,
                        w \in (IF pr[1] \in Keyable THEN Wraps ELSE {""}) } : pr \in Twins \cup Variants }
       [] Tier = "neg" -> { Mk(Tw(3), 2, 1, 2, 4, ""), Mk(Tw(3), 2, 1, 2, 4, "dict"), Mk(Tw(59), 4, 2, 2, 3, "") }
-      [] Tier = "neg2" -> { Mk(Tw(78), 2, 1, 2, 3, ""), Mk(Tw(91), 4, 2, 2, 3, ""), Mk(<< 98, 97 >>, 2, 1, 2, 4, "") }
+      [] Tier = "neg2" -> { Mk(Tw(78), 2, 1, 2, 3, ""), Mk(Tw(91), 4, 2, 2, 3, ""), Mk(<< 98, 97 >>, 2, 1, 2, 4, ""),
+                           Mk(Tw(126), 3, 3, 2, 3, "") }
 
 (***************************************************************************)
 (* Commands (what the driver will be asked to do) - one record shape       *)
@@ -151,6 +159,12 @@ ImplDigest(p, o, kind) ==
     IF Buggy_DigestUsesProcess THEN 100 * p + s
     ELSE IF Buggy_DigestSkipsShared /\ kind = "phw" /\ Cat[heap[p][o].tree].mode = "shared" THEN 50 + s
     ELSE s
+\* the listed variables of entry t that the expression writes as instances of a leaf subclass
+ListedSubLeaves(t) == {u \in VarLeaves(Cat[t].e) : IsSubLeaf(u) /\ LeafName(u) \in SeqToSet(Cat[t].vars)}
+\* re-making the compiled function from (expression, NAMES of the listed variables): a listed
+\* name that the expression gives to a subclass leaf names another variable, the leaf is then
+\* collected a second time among the unlisted ones - no function has one argument name twice
+ImplRecompiles(t) == ~(Buggy_VarsByName /\ IsCompiled(t) /\ ListedSubLeaves(t) # {})
 ImplCall(p, o, args) ==
     LET t == heap[p][o].tree IN
     IF Buggy_CompiledLosesVars /\ heap[p][o].origin = "unpickled" /\ Len(Cat[t].vars) > 1
@@ -167,7 +181,7 @@ Do(c) ==
       [] c.a = "Pickle"   -> Pickle(c.p, c.x, c.y, c.s, TRUE,
                                     IF Buggy_PickleCarriesHash THEN heap[c.p][c.x].cached ELSE 0)
       \* a carried hash is restored; rebuilding a container hashes its new key
-      [] c.a = "Unpickle" -> Unpickle(c.p, c.x, TRUE,
+      [] c.a = "Unpickle" -> Unpickle(c.p, c.x, ImplRecompiles(msgs[c.x].tree),
                                       IF msgs[c.x].carried # 0 THEN msgs[c.x].carried
                                       ELSE IF msgs[c.x].wrap # "" /\ Caches(msgs[c.x].tree)
                                            THEN ModelHash(c.p, Canon(msgs[c.x].tree)) ELSE 0)
